@@ -159,12 +159,12 @@ def template_rule(rng, p, idb):
     elif t == 2: body = [("cl", a2, [("v", 0), ("v", 1)], [("if", ("lt", ("var", 0), rng.range(2, 5)))]), ("cl", b2, [("v", 1), ("v", 2)], [("if", ("ne", ("var", 2), ("var", 1)))])]; hv = [0, 1, 2]
     elif t == 3: body = [("cl", a2, [("v", 0), ("v", 1)], []), ("cl", b2, [("v", 1), ("v", 2)], []), ("cl", pick(2), [("v", 2), ("v", 3)], [])]; hv = [0, 2, 3]
     elif t == 4: body = [("cl", a2, [("v", 0), ("v", 1)], []), ("cl", b2, [("e", ("add", ("var", 0), 1)), ("v", 2)], [])]; hv = [0, 1, 2]
-    elif t == 5: body = [("iflet", 9, ("somex", c)), ("cl", a2, [("v", 0), ("v", 1)], []), ("cl", b2, [("v", 1), ("v", 9)], [("let", 8, ("add", ("var", 0), 1))])]; hv = [0, 8, 9]
+    elif t == 5: body = [("iflet", 9, ("somex", c)), ("cl", a2, [("v", 0), ("v", 1)], []), ("cl", b2, [("v", 1), ("v", 9)], [("let", 8, ("add", ("var", 0), 1)), ("if", ("le", ("var", 8), BOUND))])]; hv = [0, 8, 9]
     elif t == 6: body = [("cl", a2, [("v", 0), ("v", 1)], []), ("cl", b2, [("v", 1), ("v", 1)], [])]; hv = [0, 1]          # second clause repeats a join variable
     elif t == 7: body = [("cl", a2, [("v", 0), ("v", 1)], []), ("cl", b2, [("v", 0), ("v", 0)], []), ("cl", a2, [("v", 1), ("v", 2)], [])]; hv = [0, 1, 2]
     else:
         # a `let` attached to the first clause whose variable is a COLUMN of the next clause (the index of that clause must use it)
-        body = [("cl", a2, [("v", 0), ("v", 1)], [("let", 8, ("add", ("var", 1), rng.range(0, 1)))]), ("cl", b2, [("v", 8), ("v", 2)] if rng.chance(1, 2) else [("v", 2), ("v", 8)], [])]; hv = [0, 8, 2]
+        body = [("cl", a2, [("v", 0), ("v", 1)], [("let", 8, ("add", ("var", 1), rng.range(0, 1))), ("if", ("le", ("var", 8), BOUND))]), ("cl", b2, [("v", 8), ("v", 2)] if rng.chance(1, 2) else [("v", 2), ("v", 8)], [])]; hv = [0, 8, 2]
     h = rng.choice(idb)
     ar = rels[h]["arity"]
     if rels[h].get("lat"): return gen_rule(rng, p, h, [a2], {})
